@@ -16,12 +16,15 @@ def parseMH : Sexp → Option MH
   | list [atom "intList", xs] => do pure (.intList (← xs.asInts?))
   | list [atom "varRange", xs] => do pure (.varRange (← parseStrs xs))
   | list [atom "listSize", lo, hi] => do pure (.listSize (← lo.asNat?) (← hi.asNat?))
+  -- `ListSizeBetweenWithoutListOperations`: the same generator and predicate (only its mutation operators differ)
+  | list [atom "listSizeNoOps", lo, hi] => do pure (.listSize (← lo.asNat?) (← hi.asNat?))
   | list [atom "strSize", lo, hi, al] => do pure (.strSize (← lo.asNat?) (← hi.asNat?) (← parseStrs al))
   | list [atom "interval", a, b, c] => do pure (.interval (← a.asInt?) (← b.asInt?) (← c.asInt?))
   | atom "floatRange" => some .floatRange
   | list [atom "floatList", n] => do pure (.floatList (← n.asNat?))
   | list [atom "depIntRangeLo", atom f, hi] => do pure (.depIntRangeLo f (← hi.asInt?))
   | list [atom "depIntRangeHi", lo, atom f] => do pure (.depIntRangeHi (← lo.asInt?) f)
+  | list [atom "depIntRangeSpan", atom fw, atom flo] => pure (.depIntRangeSpan fw flo)
   | list [atom "depListSize", atom f] => some (.depListSize f)
   | list [atom "depVarFrom", atom f] => some (.depVarFrom f)
   | _ => none
@@ -51,6 +54,7 @@ def mhSx : MH → Sexp
   | .floatList n => list [atom "floatList", ofNat n]
   | .depIntRangeLo f hi => list [atom "depIntRangeLo", atom f, ofInt hi]
   | .depIntRangeHi lo f => list [atom "depIntRangeHi", ofInt lo, atom f]
+  | .depIntRangeSpan fw flo => list [atom "depIntRangeSpan", atom fw, atom flo]
   | .depListSize f => list [atom "depListSize", atom f]
   | .depVarFrom f => list [atom "depVarFrom", atom f]
 
